@@ -98,6 +98,26 @@ func rC05Matcher(w *World, r *Report) {
 				continue
 			}
 			scans++
+			// the scan visits every key: no exit from the loop other than exhausting the table
+			for _, ref := range *rg.Referrers() {
+				if nx, ok := ref.(*ssa.Next); ok {
+					loop := naturalLoop(nx.Block())
+					complete := true
+					for lb := range loop {
+						for _, sc := range lb.Succs {
+							if !loop[sc] && lb != nx.Block() {
+								complete = false
+							}
+						}
+						for _, li := range lb.Instrs {
+							if _, isRet := li.(*ssa.Return); isRet {
+								complete = false
+							}
+						}
+					}
+					ru.Check(complete, "scan/complete", w.IPos(nx), "every declared name is compared", "the prefix scan can stop early: an ambiguous prefix would be resolved to whichever name the map yields first")
+				}
+			}
 			ru.Check(edgeDominates(exactIf.Block(), 1, b), "scan/after-exact", w.IPos(rg), "prefix scan only when there is no exact match", "prefix scan is not dominated by the failed exact lookup: an exact name could be reported ambiguous")
 		}
 	}
